@@ -56,6 +56,7 @@ import Ctrmml.Proofs.MdSched
 import Ctrmml.Proofs.MdTable
 import Ctrmml.Proofs.MdSlur
 import Ctrmml.Proofs.MdExtent
+import Ctrmml.Proofs.MdSlurSched
 import Ctrmml.Spec.Schedule
 namespace Ctrmml.C07
 open Ctrmml Ctrmml.MdDriver Tables
@@ -636,6 +637,53 @@ theorem C07_slur_update_partial (d : Data) (song : Song) (root : List Event) (b 
       cases s'; simp only [Player.PState.mk.injEq]; exact ⟨a1, a2⟩
     rw [this]; exact hrel'
 
+/-- **The schedule of an FM channel over the whole log, slurs allowed** (partial: one channel
+track).  As `C07_schedule_fm_partial`, without the "no SLUR" hypothesis: let `sl_k` be the slur
+flag of the channel before update `k` (`slurOf`, read off the driver; `sl_0 = false`) and `ins_k`
+its "instrument change pending" flag.  For EVERY update `k = 0 … K` of the log (`SlurSched`):
+ * only key-off / key-on words of this channel are written to register 0x28;
+ * a key-on is written only if `sl_k` is clear and no `SLUR` is delivered in the ticks
+   `N_k … N_{k+1}−1`; then, with a note among them, it is the last key write and a key-off
+   precedes it — slurred notes are not re-keyed;
+ * a rest / the end of the track writes a key-off; a note does only if `sl_k` is clear or an
+   instrument is loaded at it (`ins_k`, or an `INS` command among the events) — a slurred note
+   writes no key-off, only its frequency (`C07_pitch_value_partial`);
+ * `sl_{k+1}`: clear after an update with a note; without note and tie it is set iff `sl_k` or a
+   `SLUR` was delivered.
+So the flag follows the tick stream: a `SLUR` sets it until the end of the update that holds the
+next note start.  Extra hypothesis w.r.t. the full statement: one channel track, `SegTop`. -/
+theorem C07_schedule_fm_slur_partial (d : Data) (song : Song) (tags : Vgm.Tags) (ops : List Vgm.Op)
+    (id : Nat) (root : List Event) (hid : id < 6)
+    (hexp : exportOps d song tags = .ok ops) (hsingle : SingleTrack song id root)
+    (hs : Refine.SongNoEnd song) (hr : Tree.NoEnd root) (hplain : TickStream.PlainCode song root)
+    (items : List Expand.Item) (hperf : Expand.perf song root = .ok items)
+    (hfuel : ∀ k outs, Refine.stepsCore song root k ⟨.root, 0, []⟩ = .ok (⟨.root, root.length, []⟩, outs) →
+      2 * k + 2 ≤ PlayerCh.settleFuel)
+    (hseg : ∀ k, TickStream.SegTop song root k ⟨.root, 0, []⟩) :
+    ∃ K L, ops = ctorPokes ++ (playSong d song).2 ++ L ++ [Vgm.Op.stop, Vgm.Op.writeTag tags] ∧
+      stamps 0 L = schedLog d song (playSong d song).1 (K + 1) ∧ delaySum L = 735 * K ∧
+      slurOf (updRun d song 0 (playSong d song).1) = false ∧ insOf (updRun d song 0 (playSong d song).1) = false ∧
+      ∀ k, k ≤ K →
+        SlurSched (id / 3) (id % 3) (TickStream.lxInit items) (updRun d song k (playSong d song).1).ticks
+          (updRun d song (k + 1) (playSong d song).1).ticks
+          (slurOf (updRun d song k (playSong d song).1)) (slurOf (updRun d song (k + 1) (playSong d song).1))
+          (insOf (updRun d song k (playSong d song).1)) (keysV (updOps d song (playSong d song).1 k)) := by
+  obtain ⟨K, L, h1, h2, h3, _, _, h6⟩ := exportOps_log d song tags ops hexp
+  have hB : 2 * 49999 + 2 ≤ PlayerCh.settleFuel := by unfold PlayerCh.settleFuel; decide
+  have hrel := TickStream.relX_init song root hs hr items hperf 49999
+    (fun k outs h => by have := hfuel k outs h; unfold PlayerCh.settleFuel at this; omega) hseg
+  have h0 := (playSong_single d song id root hsingle).1
+  have hs0 : slurOf (updRun d song 0 (playSong d song).1) = false := by
+    simp only [updRun, slurOf, h0]
+    unfold mkCh; rw [if_pos hid]
+  have hi0 : insOf (updRun d song 0 (playSong d song).1) = false := by
+    have hm : ([PlayerCh.VOL_BIT] : List Nat).contains (PlayerCh.chIdx ev_INS) = false := by decide
+    simp only [updRun, insOf, h0]
+    unfold mkCh; rw [if_pos hid]; exact hm
+  refine ⟨K, L, h1, h2, h3, hs0, hi0, fun k hk => ?_⟩
+  exact single_fm_slur_keys d song root id hid hsingle _ 49999 (TickStream.endOK_root song root) hB
+    (TickStream.plainHooks_of song root hplain) _ hrel k (fun j hj => h6 j (by omega))
+
 /-- **PSG melody channel, per update (any track, any pass).**  For a PSG melody channel
 (`kind = psg i`, tracks G–I) in good standing and related to the looping list machine `m`, one
 `MD_Channel::update(n)` — unless it ends in an error — leaves it related to the machine `n` ticks
@@ -910,6 +958,29 @@ example :
           ⟨ev_NOTE, 44, 2, 0⟩, ⟨ev_REST, 0, 0, 1⟩])] }).1 k)) =
     [[0, 0xf0], [], [], [], [], [], [0], [0]] := by
   decide +kernel
+
+/-- the hypotheses of `C07_schedule_fm_slur_partial` hold for the slur chain above -/
+example :
+    let root : List Event := [⟨ev_NOTE, 40, 2, 0⟩, ⟨ev_SLUR, 0, 0, 0⟩, ⟨ev_NOTE, 42, 2, 0⟩, ⟨ev_SLUR, 0, 0, 0⟩, ⟨ev_NOTE, 44, 2, 0⟩,
+      ⟨ev_REST, 0, 0, 1⟩]
+    let song : Song := { tracks := [(0, root)] }
+    (∃ ops, exportOps { ins := [] } song exNoTags = .ok ops) ∧ SingleTrack song 0 root ∧
+    Refine.SongNoEnd song ∧ Tree.NoEnd root ∧ TickStream.PlainCode song root ∧
+    Expand.perf song root = .ok (root.map Expand.item) ∧
+    (∀ k outs, Refine.stepsCore song root k ⟨.root, 0, []⟩ = .ok (⟨.root, root.length, []⟩, outs) →
+      2 * k + 2 ≤ PlayerCh.settleFuel) ∧
+    (∀ k, TickStream.SegTop song root k ⟨.root, 0, []⟩) := by
+  intro root song
+  have hall := TickStream.songNoEnd_of_all song root (by decide)
+  refine ⟨?_, ⟨[], rfl, by decide, by simp⟩, hall.1, hall.2, ?_, rfl, ?_, ?_⟩
+  · have h : (match exportOps { ins := [] } song exNoTags with | .ok _ => true | .error _ => false) = true := by
+      decide +kernel
+    cases hx : exportOps { ins := [] } song exNoTags with
+    | ok ops => exact ⟨ops, rfl⟩
+    | error e => rw [hx] at h; cases h
+  · exact TickStream.of_allEvents song root (fun e => e.type ≠ ev_PLATFORM ∧ e.type ≠ ev_DRUM_MODE) (by decide)
+  · exact TickStream.fuel_of_run song root 6 (root.map fun e => .hook e e) _ rfl (by unfold PlayerCh.settleFuel; decide)
+  · exact TickStream.segTop_of_noSegno song root hall.1 hall.2 (root.map Expand.item) rfl (by decide)
 
 /-- PSG channel G, `v12 c4(2+1)` with the default envelope (first byte 0x10): the attenuation written at
 the key-on update is `psgAtt true 12 0x10 = 3` (twice: by the pending volume change at the note, then — last —
